@@ -35,3 +35,9 @@ Print Assumptions C18_asm_blocks_as_modelled.
 Theorem C18_asm_blocks_exact : pins_C18_exact = true.
 Proof. exact pins_C18_exact_ok. Qed.
 Print Assumptions C18_asm_blocks_exact.
+
+(* each of the six port access functions is its asm! block and nothing else: no statement that
+   could touch memory sits beside the IN / OUT (function bodies regenerated from the source) *)
+Theorem C18_port_functions_are_their_asm_block : pins_C18_shapes = true.
+Proof. exact pins_C18_shapes_ok. Qed.
+Print Assumptions C18_port_functions_are_their_asm_block.
